@@ -202,6 +202,28 @@ func VH19b_resize() {
 	if proto == "sub" {
 		sock.SetOption(mangos.OptionSubscribe, []byte{})
 	}
+	// the receiving calls go to the socket or to an opened context, and the option is changed on either of them
+	type rcvopt interface {
+		RecvMsg() (*mangos.Message, error)
+		SetOption(string, interface{}) error
+	}
+	var rx rcvopt = sock
+	var optOn rcvopt = sock
+	if verif.Choice("recv-on-a-context", 2) == 1 {
+		c, cerr := sock.OpenContext()
+		if cerr != nil {
+			verif.Assume(false)
+		}
+		if proto == "sub" {
+			c.SetOption(mangos.OptionSubscribe, []byte{})
+		}
+		rx = c
+		lab += "/context"
+		if verif.Choice("option-on-the-context", 2) == 1 {
+			optOn = c
+		}
+		verif.Reach("resize-with-context")
+	}
 	side := vt.Listen(sock, "a")
 	p1 := side.Peer("p1")
 	opt := []string{mangos.OptionReadQLen, mangos.OptionWriteQLen}[verif.Choice("which", 2)]
@@ -228,10 +250,10 @@ func VH19b_resize() {
 	pending := verif.Choice("receiver-waiting", 2) == 1
 	var g0 *verif.G
 	if pending {
-		g0 = verif.Go("recv0", func() { sock.RecvMsg() })
+		g0 = verif.Go("recv0", func() { rx.RecvMsg() })
 		verif.Quiesce()
 	}
-	err := sock.SetOption(opt, v)
+	err := optOn.SetOption(opt, v)
 	verif.Quiesce()
 	if err != nil {
 		verif.Assert(err == mangos.ErrBadOption, lab+"/qlen-in-range-rejected")
@@ -242,7 +264,7 @@ func VH19b_resize() {
 	// traffic after the resize still flows in the directions the pattern has
 	var m *mangos.Message
 	var rerr error
-	g := verif.Go("recv", func() { m, rerr = sock.RecvMsg() })
+	g := verif.Go("recv", func() { m, rerr = rx.RecvMsg() })
 	verif.Quiesce()
 	p1.Deliver(wireIn(proto, 'b'))
 	verif.Quiesce()
